@@ -167,6 +167,9 @@ PROPS["C01"]["theorem_modules"] = PROPS["C01"]["theorem_modules"] + ["DecProofs.
 for _pid in ("C01", "C15"):
     PROPS[_pid]["theorem_modules"] = PROPS[_pid]["theorem_modules"] + ["DecProofs.Properties.AllClosed"]
 
+for _pid in ("C01", "C02", "C13"):
+    PROPS[_pid]["theorem_modules"] = PROPS[_pid]["theorem_modules"] + ["DecProofs.Properties.SourceLevel5"]
+
 # secondary build configuration of C02 (thorough tier): the tininess-after-rounding cargo feature
 PROPS["C02"]["feature_configs"] = [{"feature": "tiny_after", "judge_tiny_after": True}]
 
